@@ -140,6 +140,8 @@ struct XferRun : SdoEnv {
 
     // ---- raw frame to a server: safety only (C05 history, C04 recovery)
     void garbage(int srv, Frame f) {
+        // a raw frame that names the object of a transfer running on the other server: two users of one entry share its cursor, which no property covers - that transfer is no longer judged
+        for (int k = 0; k < 2; k++) if (L[k].active && L[k].checked && !L[k].s.finished() && L[k].s.srv != srv && f.u16(1) == L[k].s.idx && f.d[3] == L[k].s.sub) { L[k].checked = false; cov.hit("raw-frame-on-other-server-names-the-same-object"); }
         f.id = rxid(srv); size_t m = w.mark(); w.rx(0, f); w.canproc(0); cov.frames_in++;
         for (size_t i = m; i < w.evs.size(); i++) { const Ev &e = w.evs[i]; if (e.kind == EV_TX) { cov.frames_out++; if (e.f.id != txid(srv)) fail("foreign-tx", "frame on another COB-ID while serving an SDO request: " + e.f.str()); } else if (e.kind == EV_CANRECEIVE) fail("sdo-to-app", "SDO request handed to the application callback"); }
         if (w.s[0].txInOp > 127 + CO_TPDO_N + 2) fail("tx-bound", "more than the bounded number of frames in one processing step");
